@@ -1290,7 +1290,10 @@ impl DnsRegistry {
         for record in found_records {
             let probe = match self.probing.get_mut(record.get_name()) {
                 Some(p) => {
-                    p.start_time = probe_time; // restart this probe.
+                    // restart this probe: the new record has to be probed three times.
+                    p.start_time = probe_time;
+                    p.next_send = probe_time;
+                    new_timer_added = true;
                     p
                 }
                 None => {
